@@ -2365,6 +2365,9 @@ impl Node {
                 non_beneficial_msat,
                 state.fee_velocity_control.limit
             );
+        } else {
+            // the fee just counted must survive a restart
+            self.persister.update_node(&self.get_id(), &*state).expect("node persistence failure");
         }
 
         Ok(())
